@@ -374,6 +374,13 @@ func C05(tier string) *engine.Report {
 			break
 		}
 	}
+	if len(rep.Violations) == 0 {
+		cres := c05ChainDFS(tier).Run()
+		tot.Add(cres, rep)
+		executions += cres.Executions
+		rep.Coverage["nested_post_chains"] = map[string]any{"executions": cres.Executions, "finished": cres.Exhaustive, "violations": len(cres.Violations),
+			"space": "poll call {PollOne, RunOneFor, RunOne, Poll} x descriptor ready {before the first poll, written by the first handler of the chain} x fan-out {1,2} x chain started by {the program, a posted handler}; the chain re-posts until the read it waits for is delivered"}
+	}
 	c05RacePass(rep)
 	tot.Fill(rep, "all interleavings up to the preemption bound of loop L + posters P1,P2 (and, in the later thorough stages, P3) (1-2 posts each; optionally a nested post; loop-side activity between polls: none | arm+cancel a FIFO read | arm+cancel a FIFO write | a FIFO write disarmed inside Poll) over the real poller instrumented by an overlay rewrite (mutex, atomics, plain pending accesses, eventfd read/write are scheduling points); "+
 		"non-trivial = the schedule switched threads at least twice", 0)
@@ -404,6 +411,9 @@ func C05Replay(v engine.Violation, log func(string)) *engine.Violation {
 			return &vv
 		}
 		return nil
+	}
+	if strings.HasPrefix(v.Config, "post-chain@") {
+		return c05ChainDFS(v.Config[len("post-chain@"):]).ReplayChoices(v.Choices)
 	}
 	tier, st := c05ParseStage(v.Config)
 	return c05DFS(tier, st).ReplayChoices(v.Choices)
